@@ -1,0 +1,319 @@
+//go:build verif
+
+// Decoder-side contracts for package openflow13 (C07 C12), checked by /verif/govc: every decoder is total on
+// arbitrary bytes (no panic, loops make progress, allocations bounded by the input), modifies only its receiver,
+// and the decoded value shares no memory with the input buffer ("decoder" macro, see /verif/DESIGN.md).
+
+package openflow13
+
+//@ property C07 min-obligations 600
+//@ property C12 min-obligations 100
+
+//@ elemdecoder (*ActionHeader).UnmarshalBinary(a, data) (err) [C07 C12]
+
+//@ elemdecoder (*ActionOutput).UnmarshalBinary(a, data) (err) [C07 C12]
+
+//@ elemdecoder (*ActionSetqueue).UnmarshalBinary(a, data) (err) [C07 C12]
+
+//@ elemdecoder (*ActionGroup).UnmarshalBinary(a, data) (err) [C07 C12]
+
+//@ elemdecoder (*ActionDecNwTtl).UnmarshalBinary(a, data) (err) [C07 C12]
+
+//@ elemdecoder (*ActionPush).UnmarshalBinary(a, data) (err) [C07 C12]
+
+//@ elemdecoder (*ActionPopVlan).UnmarshalBinary(a, data) (err) [C07 C12]
+
+//@ elemdecoder (*ActionPopMpls).UnmarshalBinary(a, data) (err) [C07 C12]
+
+//@ elemdecoder (*ActionSetField).UnmarshalBinary(a, data) (err) [C07 C12]
+//@   requires a.Field.ExperimenterID == 0
+
+//@ elemdecoder (*BundleControl).UnmarshalBinary(b, data) (err) [C07 C12]
+
+//@ elemdecoder (*BundlePropertyExperimenter).UnmarshalBinary(p, data) (err) [C07 C12]
+//@   requires len(p.data) == 0
+
+//@ decoder (*BundleAdd).UnmarshalBinary(b, data) (err) [C07 C12]
+//@   requires len(b.Properties) == 0
+//@   ensures err == nil ==> wfl(b)
+//@   loop 1:
+//@     invariant 8 <= n && wfl(b.Message) && allwfl(b.Properties)
+//@     decreases len(data) - n
+
+//@ decoder (*VendorError).UnmarshalBinary(e, data) (err) [C07 C12]
+//@   ensures err == nil ==> wfl(e)
+
+//@ decoder (*FlowMod).UnmarshalBinary(f, data) (err) [C07 C12]
+//@   requires len(f.Match.Fields) == 0 && len(f.Instructions) == 0
+//@   ensures err == nil ==> wfl(f)
+//@   loop 1:
+//@     invariant 56 <= n && int(f.Header.Length) <= len(data) && wfl(f.Match) && allwfl(f.Instructions)
+//@     decreases int(f.Header.Length) - n
+
+//@ decoder (*FlowRemoved).UnmarshalBinary(f, data) (err) [C07 C12]
+//@   requires len(f.Match.Fields) == 0
+//@   ensures err == nil ==> wfl(f)
+
+//@ decoder (*GroupMod).UnmarshalBinary(g, data) (err) [C07 C12]
+//@   requires len(g.Buckets) == 0
+//@   ensures err == nil ==> wfl(g)
+//@   loop 1:
+//@     invariant 16 <= n && int(g.Header.Length) <= len(data) && allwfl(g.Buckets)
+//@     decreases int(g.Header.Length) - n
+
+//@ elemdecoder (*Bucket).UnmarshalBinary(b, data) (err) [C07 C12]
+//@   requires len(b.Actions) == 0
+//@   loop 1:
+//@     invariant 16 <= n && n <= int(b.Length) && int(b.Length) <= len(data) && b.Length%8 == 0 && allwfl(b.Actions) && n == 16 + sum(b.Actions)
+//@     decreases int(b.Length) - n
+
+//@ decoder (*InstrHeader).UnmarshalBinary(a, data) (err) [C07 C12]
+
+//@ elemdecoder (*InstrGotoTable).UnmarshalBinary(instr, data) (err) [C07 C12]
+
+//@ elemdecoder (*InstrWriteMetadata).UnmarshalBinary(instr, data) (err) [C07 C12]
+
+//@ elemdecoder (*InstrActions).UnmarshalBinary(instr, data) (err) [C07 C12]
+//@   requires len(instr.Actions) == 0
+//@   ensures err == nil ==> size(instr) <= 65535
+//@   loop 1:
+//@     invariant 8 <= n && int(instr.Length) <= len(data) && (n <= int(instr.Length) || len(instr.Actions) == 0) && n <= len(data) && allwfl(instr.Actions) && n == 8 + sum(instr.Actions)
+//@     decreases int(instr.Length) - n
+
+//@ decoder (*Match).UnmarshalBinary(m, data) (err) [C07 C12]
+//@   requires len(m.Fields) == 0
+//@   ensures err == nil ==> wfl(m) && 8 <= size(m) && size(m) <= len(data) && size(m) <= 65535
+//@   loop 1:
+//@     invariant 4 <= n && n <= len(data) && allwfl(m.Fields) && n == 4 + sum(m.Fields)
+//@     decreases len(data) - n
+
+//@ elemdecoder (*MatchField).UnmarshalBinary(m, data) (err) [C07 C12]
+//@   requires m.ExperimenterID == 0
+//@   ensures err == nil ==> size(m) <= 600
+
+//@ elemdecoder (*InPortField).UnmarshalBinary(m, data) (err) [C07 C12]
+
+//@ elemdecoder (*EthDstField).UnmarshalBinary(m, data) (err) [C07 C12]
+
+//@ elemdecoder (*EthSrcField).UnmarshalBinary(m, data) (err) [C07 C12]
+
+//@ elemdecoder (*EthTypeField).UnmarshalBinary(m, data) (err) [C07 C12]
+
+//@ elemdecoder (*VlanIdField).UnmarshalBinary(m, data) (err) [C07 C12]
+
+//@ elemdecoder (*MplsLabelField).UnmarshalBinary(m, data) (err) [C07 C12]
+
+//@ elemdecoder (*MplsBosField).UnmarshalBinary(m, data) (err) [C07 C12]
+
+//@ elemdecoder (*Ipv4SrcField).UnmarshalBinary(m, data) (err) [C07 C12]
+
+//@ elemdecoder (*Ipv4DstField).UnmarshalBinary(m, data) (err) [C07 C12]
+
+//@ elemdecoder (*Ipv6SrcField).UnmarshalBinary(m, data) (err) [C07 C12]
+
+//@ elemdecoder (*Ipv6DstField).UnmarshalBinary(m, data) (err) [C07 C12]
+
+//@ elemdecoder (*IPv6FlowLabelField).UnmarshalBinary(m, data) (err) [C07 C12]
+
+//@ elemdecoder (*IpProtoField).UnmarshalBinary(m, data) (err) [C07 C12]
+
+//@ elemdecoder (*IpDscpField).UnmarshalBinary(m, data) (err) [C07 C12]
+
+//@ elemdecoder (*TunnelIdField).UnmarshalBinary(m, data) (err) [C07 C12]
+
+//@ elemdecoder (*MetadataField).UnmarshalBinary(m, data) (err) [C07 C12]
+
+//@ elemdecoder (*PortField).UnmarshalBinary(m, data) (err) [C07 C12]
+
+//@ elemdecoder (*TcpFlagsField).UnmarshalBinary(m, data) (err) [C07 C12]
+
+//@ elemdecoder (*ArpOperField).UnmarshalBinary(m, data) (err) [C07 C12]
+
+//@ elemdecoder (*TunnelIpv4SrcField).UnmarshalBinary(m, data) (err) [C07 C12]
+
+//@ elemdecoder (*TunnelIpv4DstField).UnmarshalBinary(m, data) (err) [C07 C12]
+
+//@ elemdecoder (*ArpXHaField).UnmarshalBinary(m, data) (err) [C07 C12]
+
+//@ elemdecoder (*ArpXPaField).UnmarshalBinary(m, data) (err) [C07 C12]
+
+//@ elemdecoder (*ActsetOutputField).UnmarshalBinary(m, data) (err) [C07 C12]
+
+//@ elemdecoder (*IcmpTypeField).UnmarshalBinary(f, data) (err) [C07 C12]
+
+//@ elemdecoder (*IcmpCodeField).UnmarshalBinary(f, data) (err) [C07 C12]
+
+//@ decoder (*MultipartRequest).UnmarshalBinary(s, data) (err) [C07 C12]
+//@   ensures err == nil ==> wfl(s)
+
+//@ decoder (*MultipartReply).UnmarshalBinary(s, data) (err) [C07 C12]
+//@   ensures err == nil ==> wfl(s)
+//@   loop 1:
+//@     invariant 16 <= n && int(s.Header.Length) <= len(data) && allwfl(req)
+//@     decreases int(s.Header.Length) - n
+
+//@ elemdecoder (*DescStats).UnmarshalBinary(s, data) (err) [C07 C12]
+
+//@ decoder (*FlowStatsRequest).UnmarshalBinary(s, data) (err) [C07 C12]
+//@   requires len(s.Match.Fields) == 0
+//@   ensures err == nil ==> wfl(s) && 1 <= size(s) && size(s) <= len(data)
+
+//@ decoder (*FlowStats).UnmarshalBinary(s, data) (err) [C07 C12]
+//@   requires len(s.Match.Fields) == 0 && len(s.Instructions) == 0
+//@   ensures err == nil ==> wfl(s) && 1 <= size(s) && size(s) <= len(data) && size(s) <= 200000
+//@   loop 1:
+//@     invariant 56 <= n && int(s.Length) <= len(data) && n <= len(data) && wfl(s.Match) && allwfl(s.Instructions) && n == 48 + size(s.Match) + sum(s.Instructions) && n <= 140000
+//@     decreases int(s.Length) - n
+
+//@ decoder (*AggregateStatsRequest).UnmarshalBinary(s, data) (err) [C07 C12]
+//@   requires len(s.Match.Fields) == 0
+//@   ensures err == nil ==> wfl(s) && 1 <= size(s) && size(s) <= len(data)
+
+//@ elemdecoder (*AggregateStats).UnmarshalBinary(s, data) (err) [C07 C12]
+
+//@ elemdecoder (*TableStats).UnmarshalBinary(s, data) (err) [C07 C12]
+
+//@ elemdecoder (*PortStatsRequest).UnmarshalBinary(s, data) (err) [C07 C12]
+
+//@ elemdecoder (*PortStats).UnmarshalBinary(s, data) (err) [C07 C12]
+
+//@ elemdecoder (*QueueStatsRequest).UnmarshalBinary(s, data) (err) [C07 C12]
+
+//@ elemdecoder (*QueueStats).UnmarshalBinary(s, data) (err) [C07 C12]
+
+//@ decoder (*PortStatus).UnmarshalBinary(s, data) (err) [C07 C12]
+
+//@ elemdecoder (*NXActionHeader).UnmarshalBinary(a, data) (err) [C07 C12]
+
+//@ elemdecoder (*NXActionConjunction).UnmarshalBinary(a, data) (err) [C07 C12]
+
+//@ elemdecoder (*NXActionConnTrack).UnmarshalBinary(a, data) (err) [C07 C12]
+//@   requires len(a.actions) == 0
+//@   loop 1:
+//@     invariant a.NXActionHeader != nil && a.ActionHeader != nil && 24 <= n && n <= int(a.Length) && int(a.Length) <= len(data) && allwfl(a.actions)
+//@     decreases int(a.Length) - n
+
+//@ elemdecoder (*NXActionRegLoad).UnmarshalBinary(a, data) (err) [C07 C12]
+
+//@ elemdecoder (*NXActionRegMove).UnmarshalBinary(a, data) (err) [C07 C12]
+
+//@ elemdecoder (*NXActionResubmit).UnmarshalBinary(a, data) (err) [C07 C12]
+
+//@ elemdecoder (*NXActionResubmitTable).UnmarshalBinary(a, data) (err) [C07 C12]
+
+//@ elemdecoder (*NXActionCTNAT).UnmarshalBinary(a, data) (err) [C07 C12]
+
+//@ elemdecoder (*NXActionOutputReg).UnmarshalBinary(a, data) (err) [C07 C12]
+
+//@ elemdecoder (*NXActionCTClear).UnmarshalBinary(a, data) (err) [C07 C12]
+
+//@ elemdecoder (*NXActionDecTTL).UnmarshalBinary(a, data) (err) [C07 C12]
+
+//@ elemdecoder (*NXActionDecTTLCntIDs).UnmarshalBinary(a, data) (err) [C07 C12]
+//@   loop 1:
+//@     invariant a.NXActionHeader != nil && a.ActionHeader != nil && 0 <= i && i <= int(a.controllers) && n == 16 + 2*i && 16 + 2*int(a.controllers) <= int(a.Length) && int(a.Length) <= len(data) && a.Length >= 16
+//@     decreases int(a.controllers) - i
+
+//@ elemdecoder (*NXLearnSpecHeader).UnmarshalBinary(h, data) (err) [C07 C12]
+//@   ensures err == nil ==> h.length == 2
+
+//@ elemdecoder (*NXLearnSpecField).UnmarshalBinary(f, data) (err) [C07 C12]
+
+//@ elemdecoder (*NXLearnSpec).UnmarshalBinary(s, data) (err) [C07 C12]
+//@   ensures err == nil ==> size(s) <= 9000
+
+//@ elemdecoder (*NXActionLearn).UnmarshalBinary(a, data) (err) [C07 C12]
+//@   requires len(a.LearnSpecs) == 0
+//@   loop 1:
+//@     invariant a.NXActionHeader != nil && a.ActionHeader != nil && 32 <= n && n <= int(a.Length) && int(a.Length) <= len(data) && a.Length%8 == 0 && allwfl(a.LearnSpecs) && n == 32 + sum(a.LearnSpecs)
+//@     decreases int(a.Length) - n
+
+//@ elemdecoder (*NXActionNote).UnmarshalBinary(a, data) (err) [C07 C12]
+
+//@ elemdecoder (*NXActionRegLoad2).UnmarshalBinary(a, data) (err) [C07 C12]
+
+//@ elemdecoder (*NXActionController).UnmarshalBinary(a, data) (err) [C07 C12]
+
+//@ elemdecoder (*Uint16Message).UnmarshalBinary(m, data) (err) [C07 C12]
+
+//@ elemdecoder (*Uint32Message).UnmarshalBinary(m, data) (err) [C07 C12]
+
+//@ decoder (*ByteArrayField).UnmarshalBinary(m, data) (err) [C07 C12]
+//@   ensures err == nil ==> size(m) <= len(data)
+
+//@ elemdecoder (*CTLabel).UnmarshalBinary(m, data) (err) [C07 C12]
+
+//@ elemdecoder (*ControllerID).UnmarshalBinary(c, data) (err) [C07 C12]
+
+//@ elemdecoder (*TLVTableMap).UnmarshalBinary(t, data) (err) [C07 C12]
+
+//@ decoder (*TLVTableMod).UnmarshalBinary(t, data) (err) [C07 C12]
+//@   requires len(t.TlvMaps) == 0
+//@   ensures err == nil ==> wfl(t)
+//@   loop 1:
+//@     invariant 8 <= n && allwfl(t.TlvMaps)
+//@     decreases len(data) - n
+
+//@ decoder (*TLVTableReply).UnmarshalBinary(t, data) (err) [C07 C12]
+//@   requires len(t.TlvMaps) == 0
+//@   ensures err == nil ==> wfl(t)
+//@   loop 1:
+//@     invariant 16 <= n && allwfl(t.TlvMaps)
+//@     decreases len(data) - n
+
+//@ decoder (*PacketOut).UnmarshalBinary(p, data) (err) [C07 C12]
+//@   requires len(p.Actions) == 0
+//@   ensures err == nil ==> wfl(p)
+//@   loop 1:
+//@     invariant 24 <= n && n <= end && end <= len(data) && allwfl(p.Actions)
+//@     decreases end - n
+
+//@ decoder (*PacketIn).UnmarshalBinary(p, data) (err) [C07 C12]
+//@   requires len(p.Match.Fields) == 0
+//@   ensures err == nil ==> wfl(p)
+
+//@ decoder (*SwitchConfig).UnmarshalBinary(c, data) (err) [C07 C12]
+
+//@ decoder (*ErrorMsg).UnmarshalBinary(e, data) (err) [C07 C12]
+
+//@ decoder (*SwitchFeatures).UnmarshalBinary(s, data) (err) [C07 C12]
+//@   requires len(s.Ports) == 0
+//@   ensures err == nil ==> wfl(s)
+//@   loop 1:
+//@     invariant 32 <= next && allwfl(s.Ports)
+//@     decreases len(data) - next
+
+//@ decoder (*VendorHeader).UnmarshalBinary(v, data) (err) [C07 C12]
+//@   requires v.VendorData == nil
+//@   ensures err == nil ==> wfl(v)
+
+//@ elemdecoder (*PhyPort).UnmarshalBinary(p, data) (err) [C07 C12]
+
+//@ decoder (*PortMod).UnmarshalBinary(p, data) (err) [C07 C12]
+
+
+//@ func DecodeMatchField(class, field, length, hasMask, data) (msg, err) [C07 C12]
+//@   allocbound max(4096, len(data))
+//@   own noalias
+//@   ensures err == nil ==> msg != nil && wfl(msg) && size(msg) <= len(data) && size(msg) <= 255
+
+//@ func DecodeAction(data) (a, err) [C07 C12]
+//@   allocbound max(4096, len(data))
+//@   own noalias
+//@   ensures err == nil ==> a != nil && wfl(a) && 1 <= size(a) && size(a) <= len(data) && size(a) <= 65535
+
+//@ func DecodeInstr(data) (a) [C07 C12]
+//@   allocbound max(4096, len(data))
+//@   own noalias
+//@   ensures a != nil ==> wfl(a) && 1 <= size(a) && size(a) <= len(data) && size(a) <= 65535
+
+//@ func Parse(b) (message, err) [C07 C12]
+//@   allowglobals
+//@   allocbound max(4096, len(b))
+//@   own noalias
+//@   ensures err == nil && message != nil ==> wfl(message)
+
+//@ func decodeVendorData(experimenterType, data) (msg, err) [C07 C12]
+//@   allocbound max(4096, len(data))
+//@   own noalias
+//@   ensures err == nil ==> msg != nil && wfl(msg)
